@@ -49,7 +49,13 @@ func vfForge(b *DisclosureProofBuilder, pk *gabikeys.PublicKey, attach func(p *P
 			}()
 			contrib, cerr = view.ChallengeContribution(pk)
 		}()
-		if !ok || cerr != nil {
+		if ok && cerr != nil {
+			// the verifier refuses to reconstruct (e.g. its structure check fails): the forger does the
+			// arithmetic itself - what a verifier WOULD hash if that check were not made (or is skipped
+			// on some path) - and submits the proof anyway
+			contrib, ok = vfOwnContributions(view, pk)
+		}
+		if !ok {
 			return nil
 		}
 		c2 := createChallenge(vfContext, vfNonce, contrib, issig)
@@ -59,4 +65,43 @@ func vfForge(b *DisclosureProofBuilder, pk *gabikeys.PublicKey, attach func(p *P
 		c = c2
 	}
 	return nil
+}
+
+// vfOwnContributions recomputes the challenge contributions of a ProofD with range proofs without any
+// of the verifier's well-formedness checks (plain part through the real code on a copy without the
+// optional parts, range proofs in index order through the structure extracted from each proof).
+func vfOwnContributions(view *ProofD, pk *gabikeys.PublicKey) (out []*big.Int, ok bool) {
+	defer func() {
+		if recover() != nil {
+			out, ok = nil, false
+		}
+	}()
+	if view.NonRevocationProof != nil {
+		return nil, false
+	}
+	plain := &ProofD{C: view.C, A: view.A, EResponse: view.EResponse, VResponse: view.VResponse, AResponses: view.AResponses, ADisclosed: view.ADisclosed}
+	l, err := plain.ChallengeContribution(pk)
+	if err != nil {
+		return nil, false
+	}
+	max := 0
+	for k := range view.AResponses {
+		if k > max {
+			max = k
+		}
+	}
+	for index := 0; index <= max; index++ {
+		for _, rp := range view.RangeProofs[index] {
+			if rp == nil || view.AResponses[index] == nil {
+				return nil, false
+			}
+			rp.MResponse = new(big.Int).Set(view.AResponses[index])
+			st, err := rp.ExtractStructure(index, pk)
+			if err != nil {
+				return nil, false
+			}
+			l = append(l, st.CommitmentsFromProof(pk, rp, view.C)...)
+		}
+	}
+	return l, true
 }
